@@ -298,6 +298,21 @@ func (g *gnet) checkEmission(n *gnode, msg *gpbft.GMessage) {
 			g.viol("an honest participant only votes for a prefix of its input or a value for which it holds proof of a strong quorum", "c07-vote-no-evidence",
 				fmt.Sprintf("node %d %s %s", n.idx, msg.Vote.Phase, v))
 		}
+		// Layer S (SpecProofs.prepare_valid / commit_valid): with faulty power < 1/3, every value an honest participant
+		// PREPAREs, COMMITs or DECIDEs is a non-empty prefix of the input of SOME honest participant -- the induction behind
+		// validity (C02) breaks at the first honest vote for anything else
+		if msg.Vote.Phase != gpbft.CONVERGE_PHASE && !v.IsZero() {
+			ok := false
+			for _, h := range g.nodes {
+				if h.honest && h.input.HasPrefix(v) {
+					ok = true
+				}
+			}
+			if !ok {
+				g.viol("decided values stem from an honest input: no honest participant ever prepares, commits or decides a value that is not a prefix of an honest input", "c02-honest-vote-foreign-value",
+					fmt.Sprintf("node %d %s round %d for %s (justification attached: %v)", n.idx, msg.Vote.Phase, msg.Vote.Round, v, msg.Justification != nil))
+			}
+		}
 	}
 }
 
